@@ -88,6 +88,7 @@ var arenaTree = fsx.Tree{
 	{Path: "canary", Kind: "file", Content: "OUT:canary", Mode: 0600, Sec: 1400000000},
 	{Path: "outside/dir/f", Kind: "file", Content: "OUT:f", Mode: 0644, Sec: 1400000001},
 	{Path: "outside/pipe", Kind: "fifo"},
+	{Path: "outside/site.ignore", Kind: "file", Content: "*.log\n", Mode: 0644, Sec: 1400000002},
 }
 
 // definitelyBad: a hazard that no reading of the rules permits in a finished bundle.
@@ -100,6 +101,8 @@ func definitelyBad(n fsx.Node) (bool, string) {
 		depth := strings.Count(n.Path, "/")
 		switch {
 		case strings.HasPrefix(t, "{A}"):
+			return true, "link " + n.Path + " out of the bundle"
+		case strings.Contains(t, "outside/site.ignore"):
 			return true, "link " + n.Path + " out of the bundle"
 		case t == "/etc/passwd" || t == "/dev/null":
 			return true, "link " + n.Path + " to " + t
@@ -272,6 +275,8 @@ var hazardNodes = []fsx.Node{
 	{Path: "ln-sibling-file", Kind: "symlink", Target: "{SIB}/main.tf"},
 	{Path: "ln-manifest", Kind: "symlink", Target: "../terraform-sources.json"},
 	{Path: "ln-canary", Kind: "symlink", Target: "{A}/canary"},
+	{Path: ".terraformignore", Kind: "symlink", Target: "{A}/outside/site.ignore"},
+	{Path: "sub/.terraformignore", Kind: "symlink", Target: "../../../outside/site.ignore"},
 	{Path: "ln-outdir", Kind: "symlink", Target: "{A}/outside/dir"},
 	{Path: "ln-rel-out", Kind: "symlink", Target: "../../canary"},
 	{Path: "ln-etc", Kind: "symlink", Target: "/etc/passwd"},
@@ -361,7 +366,7 @@ func TestPropSanitised(t *testing.T) {
 				}
 				lines = append(lines, cb.rules...)
 			}
-			if lines != nil {
+			if lines != nil && !have[".terraformignore"] {
 				s := strings.Join(lines, "\n") + "\n"
 				p.Rules = &s
 			}
